@@ -11,7 +11,6 @@ def hookAll : ObjHook Ext := fun _ _ _ => none
 
 abbrev FullTarget := Target Ext
 
-def renderBool (b : Bool) : String := if b then "T" else "F"
 
 def renderEvent : Event → String
   | .encap c s ok => s!"(encap {c} {s} {renderBool ok})"
